@@ -76,6 +76,34 @@ def main():
             for k in range(int(cfg.get("run_again", 0))):
                 fs.run(plot=False, save=False)
                 result_event(obs, fs, "done_again")
+        elif cfg["kind"] == "ins":
+            from .observe_ins import INSObserver
+
+            obs = INSObserver(em, model, kill_at_eval=cfg.get("kill_at_eval"))
+            obs.install()
+            if cfg.get("ins_signal") is not None:
+                obs.arm_signal(cfg["ins_signal"])
+            kwargs = dict(cfg.get("kwargs", {}))
+            kwargs.setdefault("plot", False)
+            kwargs.setdefault("log_on_iteration", False)
+            kwargs.setdefault("logging_interval", 100000)
+            em.emit("start", resume=bool(cfg.get("resume")), cfg={k: cfg[k] for k in ("model", "seed", "nlive")})
+            fs = FlowSampler(model, output=cfg["output"], nlive=cfg["nlive"], seed=cfg["seed"],
+                             importance_nested_sampler=True,
+                             resume=bool(cfg.get("resume")), signal_handling=bool(cfg.get("signal_handling", False)),
+                             **({"exit_code": cfg["exit_code"]} if cfg.get("exit_code") is not None else {}),
+                             **kwargs)
+            obs.ns = fs.ns
+            obs.fs = fs
+            if cfg.get("resume") and fs.ns.resumed:
+                obs.resume_event(fs.ns)
+            save = cfg.get("save")
+            fs.result_extension = save or "json"
+            fs.run(plot=False, save=bool(save))
+            obs.done_event(fs, "done")
+            for k in range(int(cfg.get("run_again", 0))):
+                fs.run(plot=False, save=False)
+                obs.done_event(fs, "done_again")
         else:
             raise SystemExit(f"unknown kind {cfg['kind']}")
     except SystemExit:
